@@ -1,37 +1,42 @@
 """C10 — literal and constant values match the compiler on each platform.
 
 Obligations
-  theorems   Cppcheck.Props.C10 (Lean, unbounded): toBig_render / toBigU_render (every rendered literal of the grammar,
-             all bases, any number of digits, any valid suffix, optional sign, value < 2^64 ⇒ exact value mod 2^64),
-             toBig_rejects_overflow_partial (+ the proved counterexample for binary literals), isInt_iff_grammar,
-             suffix_iff_spec, charlit_value (+ counterexample `\\x0x4`), truncate_eq_wrap, minmax_*, const_* and the
-             table theorems re-proved over the platform table generated on this run.
-  T1         Platform::set (lib/platform.cpp) + platforms/*.xml + the XML element→field chain of loadFromXmlDocument
+  theorems   Cppcheck.Props.C10 (Lean, unbounded): toBig_render / toBigU_render (every rendered literal of the grammar: all
+             bases, any number of digits, any accepted suffix, optional sign, magnitude < 2^64 ⇒ exact value mod 2^64),
+             toBig_rejects_overflow_partial (+ proved counterexample: binary literals wrap), isInt_iff_grammar, suffix_iff_spec,
+             charlit_value_partial (+ proved counterexample `'\\x0x4'`), truncate_eq_wrap/_signed/_unsigned, minmax_*,
+             const_unsigned_adjust, and the table theorems re-proved over the platform table generated on this run.
+  T1         Platform::set (lib/platform.cpp) + platforms/*.xml + the element→field chain of loadFromXmlDocument
              → lean/Cppcheck/Gen/Platforms.lean (fail closed); the scalar chain of ValueType::getSizeOf and the
              type→bits switch of getMinMaxValues → Gen.sizeOfSrc / Gen.bitsOfSrc (theorems: model = source chain)
-  C1..C5     in-process correspondence (harness/c10.cpp vs lean/Driver/C10.lean): classification, toBigNumber/
-             toBigUNumber, characterLiteralToLL, truncateIntValue/getMinMaxValues, Platform::set(name) + getSizeOf
-  C6         CLI: `cppcheck --dump` of literal / constant-expression programs per platform; reported known values
-             compared with (a) the model's prediction for literals, (b) the reference C evaluator (P_impl)
-P_impl       reported known value of a literal / constant expression == value of the C abstract machine for the platform
-             (python reference evaluator; validated against gcc/clang static_assert probes in the thorough tier)
+  C1..C5     in-process correspondence (harness/c10.cpp vs lean/Driver/C10.lean): classification, toBigNumber/toBigUNumber,
+             characterLiteralToLL, getSuffix, truncateIntValue/getMinMaxValues, Platform::set(name) + getSizeOf
+  C6         CLI: `cppcheck --dump` of literal / constant-expression programs per platform; the reported known value of every
+             literal token is compared with the model (toBigNumber + literal branch of valueFlowSetConstantValue)
+P_impl       (i) the real converters on the spelling of a structured literal give the value of the Lean SPEC (`lit`/`clit` ops);
+             (ii) truncateIntValue = two's complement wrap; (iii) the reported known value of a constant expression = value of
+             the C abstract machine for the platform (python reference evaluator).  The thorough tier validates the SPEC side
+             (Lean literal values, reference evaluator, reference data models) against clang-14 static_assert probes / target macros.
+Findings     known_findings.d/C10.json (F5, F10b, F10c, F10e, F10f; F10d fixed by a4b8285); witnesses in corpus/C10/cases.json
 """
 import os, re, json, glob, subprocess
 import xml.etree.ElementTree as ET
 from .. import core, build_repo
 
 ID = "C10"
-LEVEL = "proof"
+LEVEL = "other"
 RULE = ("cases = literal spellings (bases × digit runs around 2^7..2^64 × every suffix spelling incl. i64/uz/user-defined, "
         "signs, malformed neighbours), character literals (prefix × escapes × multi-char × UTF-8 × malformed), "
         "truncation triples, platform/type pairs, and constant-expression programs per platform; "
         "non-trivial = the input is accepted by at least one classifier or reaches a conversion branch (not the "
         "generic invalid_argument path), resp. the program yields at least one known value")
-EXPLANATION = ("Lean theorems hold for every literal of the grammar (unbounded digit strings); tie = translator for the "
-               "platform tables (decided whole on every run) + differential correspondence of every modelled function. "
-               "Outside the model: floating literal VALUES (classification only), literal TYPE selection "
-               "(setValueTypeInTokenList), raw UTF-8 in the charlit_value theorem (correspondence only), "
-               "constant folding beyond what the CLI tie samples (F5 is a finding there).")
+EXPLANATION = ("partial: the Lean theorems hold for every integer literal of the grammar (unbounded digit strings, all bases/suffixes/signs), "
+               "every well-formed character literal, truncateIntValue for all values/sizes, and the whole platform table extracted on this run; "
+               "tie = translator (tables decided whole on every run) + differential correspondence of every modelled function + CLI dump. "
+               "NOT modelled, only sampled through the CLI against a reference evaluator: folding of constant expressions "
+               "(findings F5, F10b, F10c live there), literal TYPE selection (F10d, fixed), casts. Outside: floating literal VALUES "
+               "(classification only), raw UTF-8 in charlit_value (correspondence only), multi-character constants wider than the platform's int, "
+               "wide literals above the signed range of wchar_t.")
 THEOREMS = [
     "Cppcheck.C10.toBig_render", "Cppcheck.C10.toBigU_render", "Cppcheck.C10.toBig_rejects_overflow_partial",
     "Cppcheck.C10.toBig_rejects_overflow_counterexample", "Cppcheck.C10.toBig_bin_wraps",
@@ -1069,6 +1074,21 @@ def run(ctx, res):
     for o in ops:
         res.count("op:" + o.split(" ", 1)[0])
     core.correspond(ctx, res, "inprocess", ops, impl, model, nontrivial=nontrivial_inproc)
+    # P_impl for the truncation: the implementation's result is the two's complement wrap (python integers)
+    nt = 0
+    for o, got in zip(ops, impl):
+        f = o.split(" ")
+        if f[0] == "trunc" and 0 < int(f[2]) <= 8 and len(impl) == len(ops):
+            v, n, sg = int(f[1]), int(f[2]), f[3] == "1"
+            w = v & ((1 << (8 * n)) - 1)
+            if sg and w >= 1 << (8 * n - 1):
+                w -= 1 << (8 * n)
+            if got != str(wrap64(w)):
+                nt += 1
+                if nt <= 5:
+                    res.violation("truncateIntValue(%d, %d, %s) = %s, the conversion to a %d-bit %s type gives %d" %
+                                  (v, n, "SIGNED" if sg else "UNSIGNED", got, 8 * n, "signed" if sg else "unsigned", wrap64(w)),
+                                  dict(kind="op", op=o, implementation=got, specification=str(wrap64(w))), concrete=True, key=None)
     for o in impl:
         if o.startswith("B "):
             res.count("big:" + re.sub(r":-?\d+", "", o.split(" | ")[0][2:]))
@@ -1096,9 +1116,33 @@ def known_key(k):
     return k is not None and any(e.get("property") == ID and e.get("kind") == "finding" and e.get("key") == k for e in core.load_known())
 
 
+REF_MODELS = {   # System V i386 / x86-64 psABI, Microsoft x86 / x64 ABI (the same tables as Platforms.referenceModel in Lean)
+    "unix32": dict(short=2, int=4, long=4, llong=8, pointer=4, float=4, double=8, ldouble=12),
+    "unix64": dict(short=2, int=4, long=8, llong=8, pointer=8, float=4, double=8, ldouble=16),
+    "win32A": dict(short=2, int=4, long=4, llong=8, pointer=4, float=4, double=8, ldouble=8),
+    "win32W": dict(short=2, int=4, long=4, llong=8, pointer=4, float=4, double=8, ldouble=8),
+    "win64": dict(short=2, int=4, long=4, llong=8, pointer=8, float=4, double=8, ldouble=8),
+}
+
+
+def search_datamodel(ctx, res, drv):
+    """P_impl for the built-in platforms: sizeof(T) as the real binary reports it against the ABI tables"""
+    for name, ref in REF_MODELS.items():
+        v = dict(sizeof_short=ref["short"], sizeof_int=ref["int"], sizeof_long=ref["long"], sizeof_long_long=ref["llong"], sizeof_wchar_t=2,
+                 sizeof_float=ref["float"], sizeof_double=ref["double"], sizeof_long_double=ref["ldouble"], sizeof_pointer=ref["pointer"],
+                 sizeof_size_t=ref["pointer"], char_bit=8, defaultSign="s")
+        P = Plat(name, v)
+        exprs = [dict(src="sizeof(%s)" % tn, expect=P.size[t], kind="S", ty=("long", True)) for tn, t in SIZEOF_T]
+        k, viol = run_cli_case(ctx, res, drv, P, False, exprs, "dm_" + name)
+        for vv in viol:
+            res.violation("search: `%s` with --platform=%s reported %d, the ABI data model gives %d" % (vv["expr"], name, vv["reported"], vv["reference"]),
+                          dict(kind="cli", platform=name, lang="c", expr=vv["expr"], reported=vv["reported"], reference=vv["reference"]), concrete=True, key=None)
+
+
 def search(ctx, res, drv, exe, x, have_tables):
     """wider structured sample (P_impl on the implementation) and, with tables, every platform through the CLI"""
     rng = ctx.rng
+    search_datamodel(ctx, res, drv)
     specs = [gen_struct_lit(rng) for _ in range(12000)] + [gen_struct_char(rng) for _ in range(12000)]
     res2 = core.Result(ctx, res.level)
     pimpl_struct(ctx, res2, drv, exe, specs, "search")
